@@ -6,6 +6,12 @@ CLAIMED = {
     'C01': ('model_checking', '§6 C01', 'Every (pre-state built by <=3 (thorough: 4) connects on 3 nodes) x (one operation, every operand) pair of digraph and sync_digraph is executed symbolically from the MIR of the current tree with all edge values as z3 integers; mirror, degree, predicate and lookup agreements are asserted on the pre- and post-state and decided by the solver for every valuation. One inductive step from every bounded state covers histories of any length that stay within the bound.'),
     'C02': ('model_checking', '§6 C02', 'Same exploration on ungraph and sync_ungraph, either endpoint as caller; symmetry is asserted as multiset equality of listed values (equal counts for every value, decided by z3), degrees, is_connected and find_adjacent from both ends.'),
     'C03': ('model_checking', '§6 C03', 'All four flavours: the post-state must equal a list model of the pre-state under the operation (connect appends / inserts exactly one edge, try_connect refuses iff an edge exists, disconnect removes exactly one edge carrying the returned value at both endpoints, isolate removes exactly the incident edges), no path may panic, self-deadlock or exceed the step budget, and a second sweep varies handle provenance (clone, edge endpoint, lookup). Counterexamples are replayed on the native build before they are reported.'),
+    'C04': ('model_checking', '§6 C04', 'bfs search_path / search on all four flavours for every graph built by <=3 (thorough 4) connects on 3 nodes (thorough adds 4 nodes unfiltered), every root/target pair, with and without a filter. Edge values are symbolic and the filter is an uninterpreted function F(u,v,e) split by the executor on every examined edge; oracle: Some iff reachable in the accepted graph, path chains root..target through existing accepted edges carrying their values (solver), length = BFS distance.'),
+    'C05': ('model_checking', '§6 C05', 'Same exploration for dfs (search_path and the separate search code path): Some iff reachable, valid accepted path, no node twice.'),
+    'C06': ('model_checking', '§6 C06', 'pfs min and max on all four flavours with symbolic node values (every order type incl. ties, decided by z3 through the real BinaryHeap sift algorithm calling gdsl partial_cmp): expansion-order monitor from the closure log, path/target oracles with filters. Node/Edge comparison operators additionally by Kani harnesses (engine B) when built.'),
+    'C07': ('model_checking', '§6 C07', 'for_each multiset = multiset of edges leaving reachable nodes (z3 equal-count for every triple) for bfs, dfs, pfs min/max, pre/postorder on four flavours; filtered runs assert that only accepted edges appear in paths, cycles and orders.'),
+    'C09': ('model_checking', '§6 C09', 'search_cycle for bfs/dfs/pfs on four flavours, filter optional: Some iff a closed accepted path through the root exists; result chains root..root through existing accepted edges, no intermediate node twice, no edge more often than it exists (z3 counts), bfs shortest; undirected: closed walk.'),
+    'C10': ('model_checking', '§6 C10', 'preorder/postorder (directed), order().pre()/.post() (undirected), search_nodes and search_edges, filter optional: result is the reachable set once each and is accepted by an exact DFS discovery-order automaton / exact finishing-order recogniser; search_edges gives one existing accepted edge into each non-root node in that order.'),
 }
 NOTE = 'Trusted base: engine A std models (validated differentially against the native build on every run), rustc MIR dump = compiled code, z3. Bounds in evidence.coverage.bounds.'
 TECH = 'bounded symbolic execution of rustc MIR (own executor) + z3; native replay of counterexamples'
